@@ -57,7 +57,7 @@ PROPS = {
         rule="all 65,536 session ids through the constructors, all 256 status and reason codes, all 65,536 (PType, SType) pairs through Type() (and a ninth of them, plus PType 0..2 completely, through the decoder); distinct = distinct case texts",
     ),
     "C04": dict(
-        prop_file="props/C04.v", proof_files=WIRE_PROOFS + AST_PROOFS + ["FloatRound.v", "FillCompose.v"] + SML_DEEP + ["PrintProofs.v", "LayoutProofs.v", "OffsetProofs.v", "TokenProofs.v", "AsciiTokens.v", "TokenTrees.v", "LexPrinted.v", "AsciiLex.v", "LexTrees.v", "MsgRoundTrip.v"], tie_files=["TablesTie.v"],
+        prop_file="props/C04.v", proof_files=WIRE_PROOFS + AST_PROOFS + ["FloatRound.v", "FillCompose.v"] + SML_DEEP + ["PrintProofs.v", "LayoutProofs.v", "OffsetProofs.v", "TokenProofs.v", "AsciiTokens.v", "TokenTrees.v", "LexPrinted.v", "CaseProofs.v", "LexNames.v", "AsciiLex.v", "LexTrees.v", "MsgRoundTrip.v", "NameLex.v", "Converse.v"], tie_files=["TablesTie.v"],
         suites=["C04"],
         decisive=[],
         assumptions=["float text is strconv's (FormatFloat/ParseFloat), an oracle of the model rendered by the harness",
